@@ -143,7 +143,10 @@ def execOp (chk : Bool) (tok : List String) : String :=
       let va := parseNats a; let vb := parseNats b; let d := Ntt.log2 va.length
       renderRes renderInts (Ntt.intt d (Ntt.hadamard (Ntt.ntt d va) (Ntt.ntt d vb)))
   | ["ref_negacyc", a, b] => let va := parseNats a; renderInts (Ntt.negacyc va.length va (parseNats b))
-  | ["hash_to_point", n, hx] => renderInts (Hash.hashToPoint (parseHex hx) (parseNat n))
+  | ["salt_binds", _, _] => "skip"
+  | ["hash_to_point", n, hx] =>
+      -- descriptors of multi-megabyte strings are judged by the reference implementation only
+      if hx.startsWith "rep:" then "skip" else renderInts (Hash.hashToPoint (parseHex hx) (parseNat n))
   | ["verify", n, m, sg, pk] =>
       renderRes (fun o => match o with | none => "Undecodable" | some b => toString b)
         (Verify.verifyBytes chk (parseNat n) (parseHex m) (parseHex sg) (parseHex pk))
